@@ -201,7 +201,7 @@ class EspReal(Case):
 
     def inputs(self, mk):
         p = self.params
-        specs = [shell_spec(mk, "ABCD"[i], l, K, M) for i, (l, K, M) in enumerate(zip(p["ls"], p["Ks"], p["Ms"]))]
+        specs = cm.specs_from(mk, p)
         nb = sum(cm.nfun(l, t) * M for l, t, M in zip(p["ls"], p["types"], p["Ms"]))
         return dict(specs=specs, P=sym_matrix(mk, nb), pt=[mk.var("p" + x) for x in "xyz"],
                     nuc=[[mk.var(f"R{a}{x}") for x in "xyz"] for a in range(p["nnuc"])],
